@@ -8,4 +8,22 @@ CLAIMED = {
   "design_ref": "6 C05",
  },
 }
+LEDGER_NOTE = ("Theorems are about coq/Model/Ledger.v (hand-written, hashes/addresses as N, uint64 as Z with explicit wrap, Vertex.verify outcome as an input, "
+               "Go map order / cancellation / cut as universally quantified hints). Tie: every step of every generated history on real AccountingBook "
+               "instances is replayed by the model inside coqc (result class + full snapshot projection must agree). Side conditions: hashes the node "
+               "computes itself are fresh (sha256), CreateGenesis runs on a node without ledger; locked regions atomic (C18).")
+CLAIMED.update({
+ "C03": {
+  "engine": "ledgerh+CheckLedger",
+  "technique": "Coq invariant by induction over all operation sequences (reach_Inv); trace-acceptor correspondence vs real AccountingBook; snapshot monitor",
+  "text": "C03_unique_and_index_exact: on every reachable ledger (any sequence of genesis/propose/gossip-add/retry/truncate/trust calls, any arguments, tip orders, cancellation points, cuts) vertex hashes and transaction hashes are duplicate-free over live DAG + checkpoint and the index maps each transaction exactly to its holder; replayed vertices, replayed transactions in new wrappers and replayed proposals are refused with the ledger unchanged; a dropped tip frees its transaction. Monitors evaluate the same predicate on every snapshot of the implementation.",
+  "note": LEDGER_NOTE, "design_ref": "6 C03",
+ },
+ "C10": {
+  "engine": "ledgerh+CheckLedger",
+  "technique": "Coq invariant by induction over all operation sequences (reach_Inv); trace-acceptor correspondence; snapshot monitor",
+  "text": "C10_sealing_rules: every vertex of every reachable ledger (live or checkpointed; proposed, gossiped or retried) passed the guards issuer<>sealer, not empty, issuer<>genesis wallet, or is the genesis vertex whose receiver differs from its issuer; guard theorems for both entry paths. Crafted self-sealed / genesis-issued / empty vertices are driven through all three entry paths of the real code and compared with the model.",
+  "note": LEDGER_NOTE + " LoadDag: see C14 (the load-time guard alone is weaker).", "design_ref": "6 C10",
+ },
+})
 NOT_YET = {}
